@@ -223,9 +223,7 @@ theorem get?_node_cons (es : List (String × Cfg α)) (k : String) (ks) :
 
 theorem update_lookup_aux (p : List String) :
     ∀ (u d : Cfg α), WF u → Sub u d → ∀ x, get? d p = some (.leaf x) →
-      get? (update d u) p = match get? u p with
-        | some c => some c
-        | none => some (.leaf x) := by
+      get? (update d u) p = some ((get? u p).getD (.leaf x)) := by
   induction p with
   | nil =>
     intro u d _ hs x hd
